@@ -424,7 +424,11 @@ class Agent(dbus.service.Object):
                     xfer.got_idx |= apiIntInterval.singleton(msg.payload.seg_idx)
                     xfer.data[msg.payload.seg_idx] = seg_data
                     self.__logger.debug('Current transfer state %s of %s', xfer.got_idx, xfer.got_end)
-                    glib.timeout_add(RX_XFER_TIMEOUT_MS, self._rx_progress_cancel, key)
+                    # one running timer per transfer, restarted by each
+                    # new segment
+                    if xfer.timeout_id is not None:
+                        glib.source_remove(xfer.timeout_id)
+                    xfer.timeout_id = glib.timeout_add(RX_XFER_TIMEOUT_MS, self._rx_progress_timeout, key)
 
                     if xfer.got_end is not None:
                         # the full range is known at least
@@ -448,9 +452,20 @@ class Agent(dbus.service.Object):
             else:
                 self.__logger.error('Unhandled message: %s', msg.show(True))
 
+    def _rx_progress_timeout(self, key):
+        ''' The timer of a transfer in progress expired. '''
+        xfer = self._rx_progres.pop(key, None)
+        if xfer is not None:
+            xfer.timeout_id = None
+        return False
+
     def _rx_progress_cancel(self, key):
         # TODO keep this around for a while while the window is still open
-        del self._rx_progres[key]
+        xfer = self._rx_progres.pop(key)
+        if xfer.timeout_id is not None:
+            # must not fire into a later transfer with the same number
+            glib.source_remove(xfer.timeout_id)
+            xfer.timeout_id = None
 
     def _add_rx_item(self, item: BundleItem):
         ''' Add a recevied bundle.
